@@ -189,6 +189,9 @@ fn main() {
                 eprintln!("unknown property {}", id);
                 std::process::exit(2)
             };
+            // a logger at Trace level is installed for every check: the argument expressions of dlt-core's log calls
+            // (several of them slice the input) are evaluated as they are in an application that logs
+            dltverif::oracle::install_logger();
             let run = Run::new(&root(), p.id, tier, seed, p.level);
             if std::panic::catch_unwind(std::panic::AssertUnwindSafe(|| (p.run)(&run))).is_err() {
                 println!("INCONCLUSIVE property={} the harness itself panicked (see stderr); this is not a verdict about dlt-core", p.id);
@@ -219,6 +222,7 @@ fn main() {
                 eprintln!("bad replay file: {}", e);
                 std::process::exit(2)
             });
+            dltverif::oracle::install_logger();
             let section = body["section"].as_str().unwrap_or("");
             let result = if section.starts_with("fuzz-") { fuzz_replay(p.id, section, &body["case"]) } else { (p.replay)(section, &body["case"]) };
             match result {
